@@ -290,7 +290,10 @@ func (conn *Conn) h_001(line *Line) {
 		if ok {
 			conn.st.NickInfo(me.Nick, ident, host, me.Name)
 		}
-		conn.cfg.Me = conn.st.ReNick(me.Nick, nick)
+		// ReNick refuses (returns nil) when the nick is unchanged
+		if nk := conn.st.ReNick(me.Nick, nick); nk != nil {
+			conn.cfg.Me = nk
+		}
 	} else {
 		conn.cfg.Me.Nick = nick
 		if ok {
@@ -322,7 +325,9 @@ func (conn *Conn) h_433(line *Line) {
 	// a NICK message to confirm our change of nick, so ReNick here...
 	if line.Args[1] == me.Nick {
 		if conn.st != nil {
-			conn.cfg.Me = conn.st.ReNick(me.Nick, neu)
+			if nk := conn.st.ReNick(me.Nick, neu); nk != nil {
+				conn.cfg.Me = nk
+			}
 		} else {
 			conn.cfg.Me.Nick = neu
 		}
